@@ -7,6 +7,7 @@ import (
 	"container/list"
 	"fmt"
 	"math"
+	"os"
 	"reflect"
 	"sort"
 	"strconv"
@@ -405,6 +406,11 @@ func callInto(b *strings.Builder, rv reflect.Value, a Acc, depth int) {
 			}
 			render(b, o, depth)
 		}
+		if Scribble {
+			for _, o := range outs {
+				scribble(rv, o)
+			}
+		}
 	}()
 	b.WriteString(";")
 }
@@ -566,4 +572,119 @@ func FirstDiff(a, b string) string {
 		return strings.ToValidUTF8(s[lo:hi], "?")
 	}
 	return fmt.Sprintf("at byte %d: expected …%s… got …%s…", i, cut(a), cut(b))
+}
+
+// Scribble: a caller owns the containers a call hands to it. After rendering a returned list, slice or map that is
+// not part of the receiver's own state (not reachable from its fields), the harness uses it the way callers do -
+// takes an element out, or puts one in. If the library handed the same container to somebody else as well (a shared
+// package-level list returned instead of a fresh one), that other call's result changes and the comparison with the
+// fresh process shows it.
+//
+// OFF by default, and not part of any registered check: with VERIF_SCRIBBLE=1 the UNCHANGED library fails at once
+// (EightChar.GetYearHideGan and its siblings return slices of the package-level table LunarUtil.ZHI_HIDE_GAN), which
+// shows that "a caller changes a container it was handed" is outside what C09 states - the statement speaks of calls
+// made before, not of writes into returned values - so a check built on it would demand more than the property.
+var Scribble = os.Getenv("VERIF_SCRIBBLE") != ""
+
+func scribble(recv, out reflect.Value) {
+	for out.IsValid() && out.Kind() == reflect.Interface && !out.IsNil() {
+		out = out.Elem()
+	}
+	if !out.IsValid() {
+		return
+	}
+	var id uintptr
+	switch {
+	case out.Type() == listType:
+		if out.IsNil() {
+			return
+		}
+		id = out.Pointer()
+	case out.Kind() == reflect.Slice:
+		if out.IsNil() || out.Len() == 0 {
+			return
+		}
+		id = out.Pointer()
+	case out.Kind() == reflect.Map:
+		if out.IsNil() || out.Len() == 0 {
+			return
+		}
+		id = out.Pointer()
+	default:
+		return
+	}
+	seen := map[uintptr]bool{}
+	own := map[uintptr]bool{}
+	ownedContainers(recv, 0, seen, own)
+	if own[id] {
+		return // the receiver's own state, exposed: not the caller's to change
+	}
+	defer func() { recover() }()
+	switch {
+	case out.Type() == listType:
+		l := out.Interface().(*list.List)
+		if l.Len() > 0 {
+			l.Remove(l.Front())
+		} else {
+			l.PushBack("caller's own element")
+		}
+	case out.Kind() == reflect.Slice:
+		if e := out.Index(0); e.CanSet() {
+			e.Set(reflect.Zero(e.Type()))
+		}
+	case out.Kind() == reflect.Map:
+		keys := out.MapKeys()
+		sort.Slice(keys, func(i, j int) bool { return fmt.Sprint(keys[i].Interface()) < fmt.Sprint(keys[j].Interface()) })
+		out.SetMapIndex(keys[0], reflect.Value{})
+	}
+}
+
+// ownedContainers collects the identities of the lists, slices and maps reachable from v through struct fields and
+// pointers to library structs (the object's own state, including what it shares with the objects it refers to).
+func ownedContainers(v reflect.Value, depth int, seen, own map[uintptr]bool) {
+	if !v.IsValid() || depth > 4 {
+		return
+	}
+	switch v.Kind() {
+	case reflect.Interface:
+		if !v.IsNil() {
+			ownedContainers(v.Elem(), depth, seen, own)
+		}
+	case reflect.Ptr:
+		if v.IsNil() {
+			return
+		}
+		if v.Type() == listType {
+			own[v.Pointer()] = true
+			return
+		}
+		if seen[v.Pointer()] {
+			return
+		}
+		seen[v.Pointer()] = true
+		if v.Elem().Kind() == reflect.Struct {
+			ownedContainers(v.Elem(), depth+1, seen, own)
+		}
+	case reflect.Struct:
+		if v.Type() == timeType {
+			return
+		}
+		if v.Type() == listType.Elem() {
+			if v.CanAddr() {
+				own[v.Addr().Pointer()] = true
+			}
+			return
+		}
+		for i := 0; i < v.NumField(); i++ {
+			ownedContainers(v.Field(i), depth, seen, own)
+		}
+	case reflect.Slice:
+		if !v.IsNil() {
+			own[v.Pointer()] = true
+		}
+	case reflect.Map:
+		if !v.IsNil() {
+			own[v.Pointer()] = true
+		}
+	}
 }
